@@ -227,22 +227,33 @@ fn merge_and_add_assign_binwise() {
     assert!(same_bits(&m.range, &a.range) && same_bits(&p.range, &a.range));
     assert!(same_bits(&b.range, &a.range));
     let mut j = 0;
+    while j < LEN {
+        assert!(m.bin[j] == a.bin[j] + b.bin[j]);
+        assert!(p.bin[j] == m.bin[j]);
+        j += 1;
+    }
+}
+
+// C11: total bin count adds exactly; merge commutes at the state level.
+#[kani::proof]
+fn merge_total_adds_commutes() {
+    let (a, b) = any_hist_pair_same_edges();
+    let mut m = a.clone();
+    m.merge(&b);
+    let mut q = b.clone();
+    q.merge(&a);
+    kani::cover!(true);
+    let mut j = 0;
     let mut tot_a: u64 = 0;
     let mut tot_b: u64 = 0;
     let mut tot_m: u64 = 0;
     while j < LEN {
-        assert!(m.bin[j] == a.bin[j] + b.bin[j]);
-        assert!(p.bin[j] == m.bin[j]);
         tot_a += a.bin[j];
         tot_b += b.bin[j];
         tot_m += m.bin[j];
         j += 1;
     }
-    // C11: total bin count adds exactly
     assert!(tot_m == tot_a + tot_b);
-    // commutativity at the state level
-    let mut q = b.clone();
-    q.merge(&a);
     assert!(same_bins(&q.bin, &m.bin));
 }
 
@@ -313,24 +324,13 @@ fn mul_assign_binwise() {
     }
 }
 
-// iteration: exactly LEN items ((lower, upper), count) in edge order; widths / centers /
-// normalized_bins / variances are computed item by item from them; variance(i) == variances()[i].
+// iteration: exactly LEN items ((lower, upper), count) in edge order, from iter() and from
+// IntoIterator for &Histogram alike.
 #[kani::proof]
-fn iter_and_views() {
+fn iter_items() {
     let h = any_hist();
-    let mut total: u64 = 0;
-    let mut j = 0;
-    while j < LEN {
-        total += h.bin[j];
-        j += 1;
-    }
     let mut it = h.iter();
     let mut it2 = (&h).into_iter();
-    let mut w = h.widths();
-    let mut c = h.centers();
-    let mut nb = h.normalized_bins();
-    let mut vs = h.variances();
-    let sum_inv = 1. / (total as f64);
     let mut j = 0;
     kani::cover!(true);
     while j < LEN {
@@ -338,15 +338,70 @@ fn iter_and_views() {
         let ((lo2, hi2), cnt2) = it2.next().unwrap();
         assert!(lo.to_bits() == h.range[j].to_bits() && hi.to_bits() == h.range[j + 1].to_bits() && cnt == h.bin[j]);
         assert!(lo2.to_bits() == lo.to_bits() && hi2.to_bits() == hi.to_bits() && cnt2 == cnt);
-        assert!(w.next().unwrap().to_bits() == (hi - lo).to_bits());
-        assert!(c.next().unwrap().to_bits() == (0.5 * (lo + hi)).to_bits());
-        assert!(nb.next().unwrap().to_bits() == ((cnt as f64) / (hi - lo)).to_bits());
-        let v = vs.next().unwrap();
-        let cf = cnt as f64;
-        assert!(v.to_bits() == (cf * (1. - cf * sum_inv)).to_bits());
-        assert!(h.variance(j).to_bits() == v.to_bits());
         j += 1;
     }
     assert!(it.next().is_none() && it2.next().is_none());
-    assert!(w.next().is_none() && c.next().is_none() && nb.next().is_none() && vs.next().is_none());
+}
+
+// widths and centers: item j is bit-for-bit upper-lower and 0.5*(lower+upper) of bin j.
+#[kani::proof]
+fn views_widths_centers() {
+    let h = any_hist();
+    let mut w = h.widths();
+    let mut c = h.centers();
+    let mut j = 0;
+    kani::cover!(true);
+    while j < LEN {
+        let (lo, hi) = (h.range[j], h.range[j + 1]);
+        let wj = w.next().unwrap();
+        let cj = c.next().unwrap();
+        let (ew, ec) = (hi - lo, 0.5 * (lo + hi));
+        assert!(wj.to_bits() == ew.to_bits() || (wj.is_nan() && ew.is_nan()));
+        assert!(cj.to_bits() == ec.to_bits() || (cj.is_nan() && ec.is_nan()));
+        j += 1;
+    }
+    assert!(w.next().is_none() && c.next().is_none());
+}
+
+// normalized_bins: item j is bit-for-bit count/(upper-lower).
+#[kani::proof]
+fn views_normalized() {
+    let h = any_hist();
+    let mut nb = h.normalized_bins();
+    let mut j = 0;
+    kani::cover!(true);
+    while j < LEN {
+        let (lo, hi) = (h.range[j], h.range[j + 1]);
+        let v = nb.next().unwrap();
+        let e = (h.bin[j] as f64) / (hi - lo);
+        assert!(v.to_bits() == e.to_bits() || (v.is_nan() && e.is_nan()));
+        j += 1;
+    }
+    assert!(nb.next().is_none());
+}
+
+// variance(j) and the j-th item of variances() agree bit-for-bit and equal c*(1 - c*(1/total)).
+#[kani::proof]
+fn views_variances() {
+    let h = any_hist();
+    let mut total: u64 = 0;
+    let mut j = 0;
+    while j < LEN {
+        total += h.bin[j];
+        j += 1;
+    }
+    let sum_inv = 1. / (total as f64);
+    let mut vs = h.variances();
+    let mut j = 0;
+    kani::cover!(true);
+    while j < LEN {
+        let v = vs.next().unwrap();
+        let cf = h.bin[j] as f64;
+        let e = cf * (1. - cf * sum_inv);
+        assert!(v.to_bits() == e.to_bits() || (v.is_nan() && e.is_nan()));
+        let vi = h.variance(j);
+        assert!(vi.to_bits() == v.to_bits() || (vi.is_nan() && v.is_nan()));
+        j += 1;
+    }
+    assert!(vs.next().is_none());
 }
